@@ -16,7 +16,7 @@ pub const SS: [(u8, u8); 6] = [(0, 0), (1, 0), (1, 1), (0, 1), (2, 0), (2, 2)];
 fn sizes(tier: Tier) -> Vec<usize> {
     match tier {
         Tier::Quick => {
-            let mut v: Vec<usize> = (1..=12).collect();
+            let mut v: Vec<usize> = (1..=16).collect();
             v.extend([31, 32, 33, 63, 64]);
             v
         }
